@@ -208,7 +208,7 @@ func genDedup(r *vlib.R, tier string, emit func(string)) {
 // ---------------------------------------------------------------- sys (l3)
 
 var (
-	zRecov    = []string{"ok", "lag", "tcok", "wrongid", "wrongq"}
+	zRecov    = []string{"ok", "lag", "tcok", "wrongid", "wrongq", "multi"}
 	zFastFail = []string{"tcreset", "wrongonly", "garbage", "servfail", "refused", "mix"}
 	zSlow     = []string{"drop", "slow", "glacial", "tcstall", "flaky"}
 )
@@ -269,6 +269,12 @@ func genWave(r *vlib.R, kind string, groups int) string {
 	parts = append(parts, fmt.Sprintf("staged:ok:%d:z", 1+r.Intn(3)))
 	if kind == "n" {
 		parts = append(parts, fmt.Sprintf("cancellead:cold:%d:y", 3+r.Intn(3)))
+		parts = append(parts, fmt.Sprintf("cancelpair:pair:%d:x", 3+r.Intn(2)))
+	}
+	if kind == "r" {
+		// hedged peers (one instant, two slow authorities) under a tiny attempt limiter,
+		// with clients that leave early
+		parts = append(parts, fmt.Sprintf("distudp:multi:%d:w", 6+r.Intn(6)), fmt.Sprintf("earlyclose:multi:%d:v", 2+r.Intn(2)))
 	}
 	return strings.Join(parts, ";")
 }
@@ -299,9 +305,46 @@ func genSys(r *vlib.R, tier string, emit func(string)) {
 	emit("sys end")
 }
 
+// genExtra: limiter slots of late upstream workers; partial batched sends.
+func genExtra(r *vlib.R, tier string, emit func(string)) {
+	rounds := 2
+	if tier == "thorough" {
+		rounds = 30
+	}
+	for i := 0; i < rounds; i++ {
+		slots := 2 + r.Intn(7)
+		emit(fmt.Sprintf("res new %d", slots))
+		emit(fmt.Sprintf("res lateworker %d", 1+r.Intn(slots)))
+		emit(fmt.Sprintf("res lateworker %d", slots))
+	}
+	emit("res end")
+	for i := 0; i < rounds*8; i++ {
+		emit("burst new")
+		n := 2 + r.Intn(7)
+		d := make([]string, n)
+		for j := range d {
+			d[j] = vlib.Pick(r, []string{"a", "a", "b", "c"})
+		}
+		switch r.Intn(6) {
+		case 0: // nothing refused
+		case 1:
+			d[n-1] = "x"
+		case 2:
+			d[0] = "x"
+		default:
+			d[1+r.Intn(n-1)] = "x"
+			if r.Chance(1, 3) {
+				d[r.Intn(n)] = "x"
+			}
+		}
+		emit("burst send " + strings.Join(d, ","))
+	}
+}
+
 func gen(r *vlib.R, n int, tier string, emit func(string)) {
 	genRW(r, n*45/100, emit)
 	genWG(r, n*50/100, emit)
+	genExtra(r, tier, emit)
 	emit("wg new") // own case: the real timer path
 	emit("wg realtimer 30")
 	genDedup(r, tier, emit)
